@@ -817,6 +817,9 @@ class CtxAwareTransformer(NodeTransformer):
         self.generic_visit(node)
         return node
 
+    # ``try: ... except* E as n:`` binds n exactly like ``except E as n:``
+    visit_TryStar = visit_Try
+
     def visit_Global(self, node):
         """Handle visiting a global statement."""
         self.contexts[1].update(node.names)  # contexts[1] is the global ctx
